@@ -136,8 +136,15 @@ func classify(e ast.Expr) string {
 		}
 	case *ast.CompositeLit:
 		for _, el := range x.Elts {
-			if kv, ok := el.(*ast.KeyValueExpr); ok && exprx.EndsBareErrWrap(kv.Key) {
-				return "errwrap-before-colon"
+			if kv, ok := el.(*ast.KeyValueExpr); ok {
+				if exprx.EndsBareErrWrap(kv.Key) {
+					return "errwrap-before-colon"
+				}
+				if exprx.EltBraceHazard(kv.Key) || exprx.EltBraceHazard(kv.Value) {
+					return "composite-element-leading-brace"
+				}
+			} else if exprx.EltBraceHazard(el) {
+				return "composite-element-leading-brace"
 			}
 		}
 	case *ast.LambdaExpr:
